@@ -430,8 +430,13 @@ class RuntimeV2_x(Runtime):
         local_running_actions: List[asyncio.Task[dict]] = []
 
         if state is None or state == {}:
+            # Every conversation gets its own table of flows: flows that are added or removed at
+            # runtime (AddFlowsAction / RemoveFlowsAction, e.g. LLM generated flows) belong to
+            # the conversation that created them, not to every conversation of this runtime
             state = State(
-                flow_states={}, flow_configs=self.flow_configs, rails_config=self.config
+                flow_states={},
+                flow_configs=dict(self.flow_configs),
+                rails_config=self.config,
             )
             initialize_state(state)
         elif isinstance(state, dict):
